@@ -1,6 +1,7 @@
 (* Correspondence glue for C17: one case = (module projection, what the real relmod.Normalize returned:
-   None = refused with an error, Some rows = the schema's rows projected by the harness, in any order).
-   The model's rows and the observed rows are compared as multisets. *)
+   None = refused with an error, Some rows = the schema's rows projected by the harness, each relation's slice in
+   slice order). Model and implementation are compared relation by relation as LISTS: since the code walks every map
+   through sortedKeys the append order of every slice is determined, and the model must reproduce it. *)
 From Coq Require Import List NArith ZArith PArith Bool.
 Import ListNotations.
 Require Import Verif.Relmod.Model Verif.Base.Harness.
@@ -35,29 +36,34 @@ Fixpoint ty_eqb (a b:ty) : bool :=
 Definition row_eqb (a b:row) : bool :=
   relname_eqb (r_rel a) (r_rel b) && list_eqb Pos.eqb (r_app a) (r_app b) &&
   list_eqb Pos.eqb (r_names a) (r_names b) && list_eqb N.eqb (r_path a) (r_path b) &&
-  list_eqb Z.eqb (r_nums a) (r_nums b) && ty_eqb (r_ty a) (r_ty b).
+  list_eqb Z.eqb (r_nums a) (r_nums b) && ty_eqb (r_ty a) (r_ty b) && list_eqb Pos.eqb (r_app2 a) (r_app2 b).
 
-(* remove the first row equal to r; None when there is none *)
-Fixpoint remove_one (r:row) (l:list row) : option (list row) :=
-  match l with
-  | [] => None
-  | x :: l' => if row_eqb r x then Some l'
-               else match remove_one r l' with Some l'' => Some (x :: l'') | None => None end
+Definition all_owners : list owner := [OApp; OMixin; OEp; OParam; OStmt; OEvent; OType; OField; OView].
+Definition all_rels : list relname :=
+  [RApp; RMixin; REp; REvent; RParam; RStmt; RType; RTable; RField; REnum; RAlias; RView]
+  ++ map RTag all_owners ++ map RAnno all_owners.
+
+(* the rows of one relation, in the order in which they were appended to the schema's slice *)
+Definition rel_rows (R:relname) (rs:list row) : list row := filter (fun r => relname_eqb (r_rel r) R) rs.
+
+(* a case whose module holds a return payload the harness cannot read itself compares return rows without status/type *)
+Definition mask_ret (r:row) : row :=
+  match r_rel r, r_nums r with
+  | RStmt, [8%Z] => mk RStmt (r_app r) [hd n_empty (r_names r); n_empty] (r_path r) [8%Z] TyNil
+  | _, _ => r
   end.
 
-Fixpoint multiset_eqb (a b:list row) : bool :=
-  match a with
-  | [] => match b with [] => true | _ => false end
-  | r :: a' => match remove_one r b with Some b' => multiset_eqb a' b' | None => false end
-  end.
-
-Definition c17_case := (module * option (list row))%type.
+(* one case = module projection, what relmod.Normalize returned (None = refused; Some rows = every relation's slice
+   in slice order, one relation after the other), and whether return-row contents are comparable *)
+Definition c17_case := (module * option (list row) * bool)%type.
 
 Definition c17_ok (cm am:idx_mode) (c:c17_case) : bool :=
-  match c with (m, obs) =>
+  match c with (m, obs, retc) =>
     match normalize cm am m, obs with
     | Refused, None => true
-    | Rows rs, Some os => multiset_eqb rs os
+    | Rows rs, Some os =>
+        let f := if retc then (fun l => l) else map mask_ret in
+        forallb (fun R => list_eqb row_eqb (f (rel_rows R rs)) (f (rel_rows R os))) all_rels
     | _, _ => false
     end
   end.
